@@ -131,3 +131,51 @@ def self_check():
     xe, ye = perifocal(1.0, 0.9, 500.0)
     alpha_save = None
     return bool(ok)
+
+
+def elements_from_state(r_eq, v_eq):
+    """(q, e, inc, node, argp, dt_since_perihelion) of the heliocentric
+    two-body orbit through the equatorial-J2000 state (AU, AU/day); angles in
+    degrees.  Elliptic orbits only (returns None otherwise or when the
+    orientation is ill-defined)."""
+    se, ce = 0.397777156, 0.917482062
+
+    def to_ecl(v):
+        return (v[0], v[1] * ce + v[2] * se, -v[1] * se + v[2] * ce)
+    r, v = to_ecl(r_eq), to_ecl(v_eq)
+    mu = K * K
+
+    def cross(a, b):
+        return (a[1] * b[2] - a[2] * b[1], a[2] * b[0] - a[0] * b[2],
+                a[0] * b[1] - a[1] * b[0])
+
+    def dot(a, b):
+        return a[0] * b[0] + a[1] * b[1] + a[2] * b[2]
+    rn = math.sqrt(dot(r, r))
+    h = cross(r, v)
+    hn = math.sqrt(dot(h, h))
+    n = (-h[1], h[0], 0.0)
+    nn = math.sqrt(dot(n, n))
+    vxh = cross(v, h)
+    ev = tuple(vxh[k] / mu - r[k] / rn for k in range(3))
+    e = math.sqrt(dot(ev, ev))
+    if not (1e-3 < e < 0.97) or nn < 1e-6 * hn or hn == 0.0:
+        return None
+    inc = math.degrees(math.acos(max(-1.0, min(1.0, h[2] / hn))))
+    node = math.degrees(math.atan2(n[1], n[0])) % 360.0
+    cw = dot(n, ev) / (nn * e)
+    argp = math.degrees(math.acos(max(-1.0, min(1.0, cw))))
+    if ev[2] < 0.0:
+        argp = 360.0 - argp
+    cnu = dot(ev, r) / (e * rn)
+    nu = math.acos(max(-1.0, min(1.0, cnu)))
+    if dot(r, v) < 0.0:
+        nu = -nu
+    p = hn * hn / mu
+    q = p / (1.0 + e)
+    a = q / (1.0 - e)
+    E = 2.0 * math.atan2(math.sqrt(1.0 - e) * math.sin(nu / 2.0),
+                         math.sqrt(1.0 + e) * math.cos(nu / 2.0))
+    M = E - e * math.sin(E)
+    dt = M / (K / a ** 1.5)
+    return q, e, inc, node, argp, dt
